@@ -22,7 +22,10 @@ fn check_rr(p: &Prepared, input: &[u8], sched: &Sched, rr: &RunResult) -> Option
     match rr.first_failure() {
         None => {}
         Some((_, CallRes::Err(k, _))) if *k == ERR_AMBIG && p.cfg.strict => {
-            if !input.starts_with(&rr.out) {
+            // (text a handler looked at is normalised through decode/encode: for input that does
+            // not round-trip in the encoding the sink is not comparable byte for byte)
+            let rt = if p.cfg.adjust_charset { roundtrips_meta(p.encoding, input) } else { roundtrips(p.encoding, input) };
+            if !input.starts_with(&rr.out) && (rt || !has_text_handler(&p.cfg)) {
                 return Some(format!(
                     "ambiguity error but sink {:?} is not a prefix of the input",
                     lossy(&rr.out)
